@@ -9,18 +9,19 @@ meta="$(dirname "$patch")/meta.json"
 wt=$(mktemp -d /tmp/wt_try_XXXX); rmdir "$wt"
 git -C /repo worktree add -q --detach "$wt" "$base" || exit 2
 echo "applying to $base"
-trap 'git -C /repo worktree remove --force "$wt"' EXIT
+ev=$(mktemp -d /tmp/verif-evidence-alt-XXXX)
+trap 'git -C /repo worktree remove --force "$wt"; rm -rf "$ev"' EXIT
 git -C "$wt" apply "$patch" || { echo "PATCH DOES NOT APPLY"; exit 2; }
 ( cd "$wt" && GOFLAGS=-mod=mod GOPROXY=off go build ./... ) || { echo "DOES NOT BUILD"; exit 2; }
 "$(dirname "$0")/baseline.py" "$wt" | head -3
 for p in "$@"; do
-  out=$(VERIF_REPO="$wt" VERIF_EVIDENCE=/tmp/verif-evidence-alt "$(dirname "$0")/vcheck" run "$p" 2>&1); e=$?
+  out=$(VERIF_REPO="$wt" VERIF_EVIDENCE="$ev" "$(dirname "$0")/vcheck" run "$p" 2>&1); e=$?
   echo "$p exit=$e $(echo "$out" | tail -1 | cut -c1-160)"
   if [ $e -eq 1 ]; then
-    python3 - "$p" <<'PY'
+    python3 - "$p" "$ev" <<'PY'
 import json,glob,sys
 seen={}
-for f in sorted(glob.glob("/tmp/verif-evidence-alt/replays/%s-*.json"%sys.argv[1])):
+for f in sorted(glob.glob("%s/replays/%s-*.json"%(sys.argv[2],sys.argv[1]))):
     r=json.load(open(f)); v=r['finding']['violation']
     seen.setdefault((r['scenario'],v['clause']),[]).append((v['key'][:80],v['detail'][:220]))
 for k,v in list(seen.items())[:4]:
